@@ -10,15 +10,16 @@
      w_cn : the address its H / S functors refer to,                w_in : the inputs the functors were built from. *)
 From V Require Import Common.Num C07.Model C07.Gen_Rewire.
 
-Inductive scalar_name : Type := WTm | WTb | WHfus | WSfus.
+Inductive scalar_name : Type := WTm | WTb | WHfus | WSfus | WS0.
 
-(* Tm / Tb setters: reset_constant + reset_free_energies.  Hfus / Sfus setters: reset_energy_constant writes the
+(* Tm / Tb setters: reset_constant + reset_free_energies.  Hfus / Sfus / S0 setters: reset_energy_constant (generated:
+   either it rebuilds, or it) writes the
    new value into every functor that has a datum of that name; these two data reach the functors unchanged
    (never through a derived constant), so the patch has the effect of a rebuild. *)
 Definition setter_rewires (w : scalar_name) : bool :=
   match w with
   | WTm => Tm_setter_rebuilds | WTb => Tb_setter_rebuilds
-  | WHfus => Hfus_setter_patches | WSfus => Sfus_setter_patches
+  | WHfus => Hfus_setter_patches | WSfus => Sfus_setter_patches | WS0 => S0_setter_patches
   end.
 
 Section Machine.
